@@ -345,6 +345,6 @@ def main(tier, replay=None):
         binary_leg(texts + gen_src, rng, 40 if tier == "quick" else 600, rep, stats)
 
     try:
-        return c01.run(PID, tier, fams, t0, worker=work_gen, rule=RULE, after=after, level="model_checking")
+        return c01.run(PID, tier, fams, t0, worker=work_gen, rule=RULE, after=after, level="exploration")
     finally:
         pass
